@@ -33,6 +33,13 @@ def fresh_joserfc():
     import joserfc.jws, joserfc.jwe, joserfc.jwt, joserfc.jwk  # noqa
 
 
+def _digest(key):
+    """States are compared by a 128-bit digest of their canonical snapshot (the snapshots themselves run to kilobytes; millions of them do not fit).
+    Two different states with one digest would be merged: with 2**-128 per pair that is not what decides a search of some 10**7 states."""
+    import hashlib
+    return hashlib.blake2b(repr(key).encode("utf-8", "backslashreplace"), digest_size=16).digest()
+
+
 def _transition(args):
     hist, op = args
     model = _M["model"]
@@ -44,7 +51,7 @@ def _transition(args):
             model.apply(st, h)
         obs = model.apply(st, op)
         vs = model.check(hist, op, obs, st) or []
-        key = model.canon(st)
+        key = _digest(model.canon(st))
     except (KeyboardInterrupt, SystemExit, MemoryError, AssertionError):
         raise
     except Exception as e:  # noqa
@@ -54,7 +61,7 @@ def _transition(args):
         where = traceback.extract_tb(e.__traceback__)[-1]
         v = {"fingerprint": f"{type(model).__name__}: an operation raises {type(e).__name__} in the middle of a history [{short(op)}]",
              "what": f"history {[short(h) for h in hist]} then {short(op)}: {e!r} at {where.filename.split('/')[-1]}:{where.lineno}", "detail": {}}
-        return hist, op, ("raised", repr(hist), repr(op)), [v], "RAISED:" + type(e).__name__
+        return hist, op, _digest(("raised", repr(hist), repr(op))), [v], "RAISED:" + type(e).__name__
     return hist, op, key, vs, model.bucket(obs) if hasattr(model, "bucket") else str(obs)[:40]
 
 
@@ -68,7 +75,7 @@ def bfs(model, depth, workers=None, budget_s=None):
     if getattr(model, "fresh_import", False):
         fresh_joserfc()
     st0 = model.make()
-    seen = {model.canon(st0): ()}
+    seen = {_digest(model.canon(st0)): ()}
     frontier = [()]
     stats.states = 1
     ctx = mp.get_context("fork")
@@ -89,6 +96,12 @@ def bfs(model, depth, workers=None, budget_s=None):
             results = pool.imap(_transition, tasks, chunksize=max(1, len(tasks) // (workers * 6))) if pool else map(_transition, tasks)
             nxt = []
             for hist, op, key, vs, bucket in results:
+                if budget_s and stats.transitions % 256 == 0 and time.time() - t0 > budget_s:
+                    # the cap is honoured inside a level too: what was explored up to here is reported, the level is not complete
+                    stats.capped = True
+                    level -= 1
+                    nxt = []
+                    break
                 stats.transitions += 1
                 stats.executions += 1
                 stats.evaluations += 1
